@@ -28,4 +28,22 @@ PROPS = {
                 "record, no leading header, empty, only headers, empty last record, garbage line); all five readers run in-process on the same bytes with "
                 "panic recovery and a time-out; non-trivial = corrupted, multi-record or CRLF; distinct = distinct byte stream",
     },
+    "C06": {
+        "streams": {"C06": (600, 10000)},
+        "thorough_seeds": 3,
+        "shrink": True,
+        "rule": "1-6 queries, 1-40 targets, width 4-60, built to force ties: exact duplicates, copies with the same distance to query 0 but lower "
+                "completeness (IUPAC codes containing the original base), all-N/-/? targets (undefined raw/tn93 distance) incl. at the first position, "
+                "heavily ambiguous targets; measures raw/snp/tn93; plain, -n K (1, n-1, n, n+3, random), --table, -d (an occurring distance for raw/snp, "
+                ">=1e-6 away from every occurring distance for tn93), -d alone, threads 0/1/2/4/16; closest.Closest/ClosestN in-process; "
+                "non-trivial = the target set contains a constructed tie or an undefined distance",
+    },
+    "C07": {
+        "streams": {"C07": (400, 8000)},
+        "thorough_seeds": 3,
+        "shrink": True,
+        "rule": "as C06 with a third of the targets uniform over all 17 symbols in mixed case; every query/target distance is read from "
+                "`closest --table -n <all>` for raw, snp and tn93 and compared with the definition (snp exact, raw as the exact 9-decimal rounding of n/d, "
+                "tn93 within 1e-9 of the same expression evaluated on the definitional counts); non-trivial as C06",
+    },
 }
